@@ -1135,11 +1135,16 @@ class SymBytes:
 
     def decode(self, encoding="utf-8", errors="strict"):
         enc = str(encoding).lower().replace("_", "-")
-        if enc not in ("utf-8", "utf8") or errors != "strict":
-            raise EngineUnsupported(f"decode with {encoding}/{errors}")
+        if enc not in ("utf-8", "utf8"):
+            raise EngineUnsupported(f"decode with {encoding}")
+        if self.concrete():
+            return Utf8Str.of(self.to_bytes().decode("utf-8", errors))
         from .utf8 import utf8_valid
         ok = utf8_valid(self.items)
         if not ok:
+            if errors != "strict":
+                # the replacement text of symbolic invalid bytes is not representable: concretise the bytes (forks)
+                return Utf8Str.of(bytes(self).decode("utf-8", errors))
             raise UnicodeDecodeError("utf-8", b"", 0, 1, "invalid (symbolic)")
         return Utf8Str(self.items)
 
